@@ -538,7 +538,14 @@ func (h *hist) timeout1(k *pkt1, mutate, onClose bool) {
 		}
 	}
 	if mutProof && w.r.Chance(1, 3) {
-		key = w.kCommit1(p.SourcePort, p.SourceChannel, p.Sequence)
+		// a proof for another key.  For the absence proof of an UNORDERED timeout the other key must EXIST on the
+		// counterparty: an ics23 non-existence proof of one absent key also proves every other absent key between the
+		// same two neighbours, so "the wrong absent key" can be a perfectly valid proof.
+		if k.ord {
+			key = w.kCommit1(p.SourcePort, p.SourceChannel, p.Sequence)
+		} else {
+			key = w.kChan(p.DestinationPort, p.DestinationChannel)
+		}
 	}
 	proof, pd := w.proofOf(1-src, key, version)
 	if mutProof && w.r.Chance(1, 6) {
@@ -769,7 +776,9 @@ func (h *hist) timeout2(k *pkt2, mutate bool) {
 	version, ph := h.proofPlan(src, h.clientV2(src, k.alias), mutProof && w.r.Chance(2, 3))
 	key := w.kRcpt2(q.DestinationClient, q.Sequence)
 	if mutProof && w.r.Chance(1, 3) {
-		key = w.kCommit2(q.SourceClient, q.Sequence)
+		// a proof for another key, which must exist on the counterparty (see timeout1): its v1 channel end
+		ce := w.ep(w.pU, 1-src)
+		key = w.kChan(ce.ChannelConfig.PortID, ce.ChannelID)
 	}
 	proof, pd := w.proofOf(1-src, key, version)
 	if mutProof && w.r.Chance(1, 6) {
